@@ -10,6 +10,7 @@ import (
         "log"
 	"net"
         "net/http"
+        "strings"
         "time"
 )
 
@@ -49,10 +50,10 @@ func (h *NTLMAuthHandler) NTLMAuth(next http.HandlerFunc) http.HandlerFunc {
 
 func (h *NTLMAuthHandler) getAuthPayload (r *http.Request) (payload string, authMode ntlmAuthMode, err error) {
 	authorisationEncoded := r.Header.Get("Authorization")
-	if authorisationEncoded[0:5] == "NTLM " {
+	if strings.HasPrefix(authorisationEncoded, "NTLM ") {
 		return authorisationEncoded[5:], authNTLM, nil
 	}
-	if authorisationEncoded[0:10] == "Negotiate " {
+	if strings.HasPrefix(authorisationEncoded, "Negotiate ") {
 		return authorisationEncoded[10:], authNegotiate, nil
 	}
 	return "", authNone, errors.New("Invalid NTLM Authorisation header")
